@@ -47,7 +47,9 @@ def framePos (B : Buf) : Option Alt :=
 def opCpr (A B : Buf) : String :=
   match framePos A, framePos B with
   | some a, some b => match getPosition (α := Float) a b with
-    | some p => s!"POS some lat={p.lat * 1000.0} lon={p.lon * 1000.0}"
+    | some p =>
+      let ok := p.lat >= -90.0 && p.lat <= 90.0 && p.lon >= -180.0 && p.lon < 180.0
+      s!"POS some lat={p.lat * 1000.0} lon={p.lon * 1000.0} rng={if ok then "ok" else "out"}"
     | none => "POS none"
   | _, _ => "POS n/a"
 
